@@ -1638,6 +1638,79 @@ def gen_C11(rng):
     return ctx.text()
 
 
+def gen_C11_ev(rng):
+    """enumeration of EV+ functions: exactly the assignments whose value is not
+    +infinity, in lexicographic order, with their values; masks"""
+    ctx = Ctx(rng)
+    rel = rng.random() < 0.35
+    ctx.emit("init " + rand_ctopts(rng))
+    d = rand_domain(rng, "D", rel, 200, 3)
+    ctx.emit(d.decl())
+    ctx.doms.append(d)
+    f = Forest("E", d, rel, "int", "evp", rng.choice(RULES_REL if rel else RULES_SET), rand_opts(rng))
+    ctx.emit(f.decl())
+    ctx.forests = [f]
+    for _ in range(rng.randint(2, 4)):
+        gen_coll_evp(ctx, f)
+    for _ in range(rng.randint(0, 3)):
+        names = list(ctx.edges)
+        a, b = rng.choice(names), rng.choice(names)
+        n = ctx.fresh()
+        ctx.emit("apply %s E %s %s %s" % (n, rng.choice(["plus", "max", "min", "min"]), a, b))
+        ctx.edges[n] = f
+    for e in list(ctx.edges):
+        ctx.emit("iter %s" % e)
+        for _ in range(rng.randint(1, 3)):
+            ctx.emit("iter %s %s" % (e, rand_mask(rng, f)))
+    return ctx.text()
+
+
+def gen_C14_ev(rng):
+    """exchange files of EV+ forests: written roots read back into the same forest, a
+    twin forest and a forest created from the file denote the same functions exactly
+    (+infinity included)"""
+    ctx = Ctx(rng)
+    rel = rng.random() < 0.3
+    ctx.emit("init " + rand_ctopts(rng))
+    d = rand_domain(rng, "D", rel, 200, 3)
+    ctx.emit(d.decl())
+    ctx.doms.append(d)
+    rule = rng.choice(["fr", "qr"])
+    fw = Forest("W", d, rel, "int", "evp", rule, rand_opts(rng))
+    ft = Forest("T", d, rel, "int", "evp", rule, rand_opts(rng))
+    ctx.emit(fw.decl())
+    ctx.emit(ft.decl())
+    ctx.forests = [fw, ft]
+    for _ in range(rng.randint(2, 4)):
+        gen_coll_evp(ctx, fw)
+    names = list(ctx.edges)
+    for _ in range(rng.randint(0, 2)):
+        a, b = rng.choice(names), rng.choice(names)
+        n = ctx.fresh()
+        ctx.emit("apply %s W %s %s %s" % (n, rng.choice(["plus", "max", "min"]), a, b))
+        ctx.edges[n] = fw
+        names.append(n)
+    roots = [rng.choice(names) for _ in range(rng.randint(1, 4))]
+    if rng.random() < 0.3:
+        roots.append(roots[0])
+    ctx.emit("write f W %s" % " ".join(roots))
+    if rng.random() < 0.5:
+        gen_coll_evp(ctx, ft)
+    targets = [("read", "W"), ("read", "T")]
+    if not rel:
+        targets.append(("readnew", "N D"))
+    rng.shuffle(targets)
+    for ti, (cmd, tgt) in enumerate(targets[: rng.randint(1, 3)]):
+        rn = ["r%d_%d" % (ti, i) for i in range(len(roots))]
+        ctx.emit("%s f %s %s" % (cmd, tgt, " ".join(rn)))
+        for i, r in enumerate(rn):
+            ctx.emit("show %s" % r)
+            if tgt == "W":
+                ctx.emit("eq %s %s" % (r, roots[i]))
+        ctx.emit("audit %s" % tgt.split()[0])
+    return ctx.text()
+
+
 def gen_C15(rng):
     ctx = Ctx(rng)
     preamble(ctx, False, ranges=("bool",), nforests=rng.choice([1, 2]), maxpts=200)
